@@ -18,6 +18,7 @@ package objectz
 
 import (
 	"github.com/openziti/storage/ast"
+	"reflect"
 	"time"
 )
 
@@ -85,7 +86,13 @@ func (self *ObjectCursor[T]) EvalDatetime(name string) *time.Time {
 }
 
 func (self *ObjectCursor[T]) IsNil(name string) bool {
-	return nil == self.eval(name)
+	// the symbols return typed pointers, so a nil *string wrapped in an interface is not == nil
+	val := self.eval(name)
+	if val == nil {
+		return true
+	}
+	rv := reflect.ValueOf(val)
+	return rv.Kind() == reflect.Ptr && rv.IsNil()
 }
 
 func (self *ObjectCursor[T]) OpenSetCursor(name string) ast.SetCursor {
